@@ -51,6 +51,9 @@ def _len(lib, run, recv, args, kw):
             return Num(o.length)
     if isinstance(v, Lazy) and v.kind == 'dictview':
         return Num(T.alen(run.deref(v.payload[1]).keys))
+    from . import libarraylike as AL
+    if AL.is_al(v):
+        return Num(AL.olen(v.term))
     raise Unsupported('len(%r)' % (v,))
 
 
@@ -851,9 +854,20 @@ axiom('cdist.at', forall([_mt, _A, _B, _i, _j], mat_at(cdistm(_mt, _A, _B), _i, 
       ['cdist'], 'numpy')
 
 
-@reg('np.asarray', 'np.array')
+@reg('np.array')
+def _nparray(lib, run, recv, args, kw):
+    from . import libarraylike as AL
+    if AL.is_al(args[0]):
+        return args[0]        # only its ndim is asked for (validation); the content is taken by np.asarray
+    return _asarray(lib, run, recv, args, kw)
+
+
+@reg('np.asarray')
 def _asarray(lib, run, recv, args, kw):
     v = args[0]
+    from . import libarraylike as AL
+    if AL.is_al(v):
+        return AL.content(v)
     if isinstance(v, (MatV,)):
         return v
     if isinstance(v, SeqV):
